@@ -5,3 +5,5 @@ open CaddyModel.C17
 #print axioms fmt_ends_with_single_newline
 #print axioms fmt_preserves_tokens_full_fails
 #print axioms fmt_idempotent_full_fails
+#print axioms token_witnesses_all_fail
+#print axioms idem_witnesses_all_fail
